@@ -115,6 +115,8 @@ def build_native_harness(inst, kfdir, rundir):
         return exe, None
     hsrc = os.path.join(V.HARNESS_DIR, inst.harness)
     extra_src = [os.path.join(V.REPO, t) for t in sorted(set([t for t in inst.tus if not t.startswith("blocc/")] + inst.native_extra))]      # apps/ and modules/ sources the kernel names
+    if "apps/main.cpp" in inst.tus:
+        extra_src = ["-Dmain=bloc_app_main"] + extra_src
     cmd = ["g++"] + native_flags() + ["-I" + kfdir] + ["-D" + x for x in inst.defs] + \
           ["-DVX_ENTRY=" + inst.entry, hsrc, os.path.join(V.HARNESS_DIR, "vx_native.cpp")] + extra_src + \
           sorted(glob.glob(os.path.join(nd, "*.o"))) + ["-Wl,--allow-multiple-definition", "-ldl", "-lpthread", "-lm", "-o", exe]
